@@ -289,7 +289,7 @@ PROPS["C08"] = {
         "f32/f64/fixed-point evaluation of the builder (IEEE rounding, powi) against the proved rational formula; Pid::build's copysign / NaN-to-infinity glue",
     ],
     "level_text": "The transfer-function identity and the exact-kernel clause are theorems over exact field arithmetic and an abstract quantiser; floating-point rounding is outside the theorems and is tied by tolerance correspondence and explored natively.",
-    "level_note": "Model: pidGl, pidBuild (IdspModel/Model/Coeff.lean), an unset limit is `none` (g/inf = 0). Pid::build (scaling, copysign, NaN limit = infinity, set_input_offset, limits) and BiquadRepr::Ba::build are modelled in the driver only (Lean Float, op family repr): translation-validated glue, no theorems. Not modelled: serde/miniconf, FilterRepr (private fields, reachable through serde only).",
+    "level_note": "Model: pidGl, pidBuild (IdspModel/Model/Coeff.lean), an unset limit is `none` (g/inf = 0). Pid::build (scaling, copysign, NaN limit = infinity, set_input_offset, limits) and BiquadRepr::Ba::build are modelled in the driver only (Lean Float, op family repr): translation-validated glue, no theorems; PidBuilder::<f32> through float32Ops (op f_pid32, compared per gain). BiquadRepr::{Pid, Filter, Raw, default} are driven through the enum; FilterRepr's private leaves are set through miniconf's TreeAny interface (op f_filterrepr). Not modelled: serde/miniconf (de)serialisation itself.",
     "rule": "orders x set/unset gain and limit masks x 18 decades x periods; transfer function compared cross-multiplied at random frequencies; kernel exactness for f32 f64 i16 i32 i64",
 }
 PROPS["C09"] = {
@@ -306,7 +306,7 @@ PROPS["C09"] = {
         "f64 evaluation: finite coefficients, the identities to rounding (tolerance scaled with alpha), Jury inequalities in floating point, quantisation for i32",
     ],
     "level_text": "All identities, stability and the gain-scale clause are theorems over the real numbers; f64 rounding and libm are outside the theorems (tolerance correspondence + native sweep). Two parameter regions inside the stated range break the clause on the real code and are known findings (negative slope radicand; alpha beyond f64 precision).",
-    "level_note": "Model: FilterCfg builders, qi, biquadFromBa (IdspModel/Model/Coeff.lean) over an abstract scalar record; Lean Float instance in the driver. Not modelled: gain_db/shelf_db powf helpers, FilterRepr/miniconf glue.",
+    "level_note": "Model: FilterCfg builders, qi, biquadFromBa (IdspModel/Model/Coeff.lean) over an abstract scalar record; Lean Float instance in the driver. Filter::<f32> through float32Ops (op f_coeff32); every frequency / Q setter spelling is exercised; gain_db/shelf_db, critical_frequency(f * period), the b scaling and the scaled offset / limits of BiquadRepr::Filter are modelled in the driver (op f_filterrepr), the way back <[[f64;3];2]>::from(&Biquad) by op f_to_ba. Not modelled: serde/miniconf (de)serialisation itself.",
     "rule": "log-uniform f0 1e-4..0.49, shape 0.1..50 (Q, bandwidth, slope), gain +-1e-2..1e2, shelf 1e-2..1e2, all nine types",
 }
 PROPS["C11"] = {
@@ -357,7 +357,7 @@ PROPS["C20"] = {
         "panics that originate in Rust mechanics rather than arithmetic (slice indexing inside iterator adaptors, copy_within, unimplemented!() arms, float helpers of Sweep, coefficient builders in f64): checked-profile correspondence on every op family (PANIC lines must agree with the model) and the union of all native oracles plus sweeps of Sweep::next / Sweep::fit / AccuOsc / complex helpers / Nyquist",
     ],
     "level_text": "The union of the per-entry-point no-panic theorems of all other properties plus Sweep::next; non-arithmetic panics cannot be exhibited by the model and are covered by the checked-profile correspondence and native sweeps only (labelled exploration).",
-    "level_note": "Not reachable: svf::Svf has no public constructor (serde only). Lowpass<N>/Biquad::update::<N> for unsupported N are unimplemented!() by design and outside the documented domain.",
+    "level_note": "svf::Svf (constructed through serde_json, its only constructor) is modelled in the driver (op f_svf, tolerance compare) with no theorem; getters / set_rate / depth / size_hint / buf_mut / ba_mut / BiquadRepr::Raw are asserted natively inside the glue, hbf and repr families; integer half-band stages (impl Half for i32/i64) run through the same model with an Int carrier. Lowpass<N>/Biquad::update::<N> for unsupported N are unimplemented!() by design and outside the documented domain.",
     "rule": "all 21 op families in the checked profile + the quick tier of every other property's oracle + 2e6 Sweep states incl. the top 2^33 of the i64 range",
 }
 
